@@ -11,9 +11,9 @@ from ..values_common import (FAM, INT_KINDS, FLOAT_KINDS, INT_RANGE, Layouts, ge
                              f64_bits, V_int, V_bool, V_float, V_fbits, V_str, V_bytes, V_list, V_none, V_cinst)
 
 THEOREMS = [
-    "C10_bytes", "C10_dict_partial", "C10_dict_refuted", "C10_json_partial", "C10_json_refuted",
-    "C10_reach_invariant", "C10_copy", "C10_version", "C10_message_partial",
-    "C10_ex_canonical", "C10_ex_message",
+    "C10_bytes", "C10_reach_invariant", "C10_reach_strings_clean", "C10_dict", "C10_json_partial", "C10_json_refuted",
+    "C10_copy", "C10_version", "C10_message_partial",
+    "C10_ex_string_history", "C10_ex_canonical", "C10_ex_message",
 ]
 
 NAN = 0x7FF8000000000000
